@@ -288,7 +288,16 @@ func (bm ConnectedBitmask) XorCopy(other ConnectedBitmask) ConnectedBitmask {
 	}
 	new = append(new, bm.entries[aIdx:]...)
 	new = append(new, other.entries[bIdx:]...)
-	return ConnectedBitmask{new}
+	// merge runs that touch each other
+	merged := make([]connectedBitmaskEntry, 0, len(new))
+	for _, e := range new {
+		if l := len(merged); l != 0 && merged[l-1].max+1 == e.min {
+			merged[l-1].max = e.max
+			continue
+		}
+		merged = append(merged, e)
+	}
+	return ConnectedBitmask{merged}
 }
 
 func (bm *ConnectedBitmask) Sub(other ConnectedBitmask) {
